@@ -71,4 +71,14 @@ pub fn run(ctx: &mut Ctx) {
     ctx.run_proptest("single-sentences", &STD, n, strat, check);
     let n = ctx.tier.pick(24_000, 200_000);
     ctx.run_proptest("completed-groups", &STD, n, inorder_group_history(), check);
+    // counts and numbers over their whole range (0..255) after any history: a sentence numbered 1 (or 0)
+    // continues nothing, so if it is accepted its fields and payload are its own
+    let odd = (crate::gen::sentence::adversarial_events(10), proptest::collection::vec((prop::sample::select(vec![(0u32, 1u32), (0, 0), (1, 0), (2, 0), (0, 1), (255, 0), (0, 1)]), prop_oneof![Just(None), (0u32..4).prop_map(Some)], crate::gen::sentence::token_payload(), any::<bool>()), 1..4)).prop_map(|(evs, odds)| {
+        let mut lines: Vec<Line> = evs.iter().map(crate::gen::sentence::render_ev).collect();
+        for ((n, k), id, p, decode) in odds {
+            lines.push(Line::new(crate::refmodel::build::line(n, k, id, b"B", &p, 0), decode));
+        }
+        Input::History { lines }
+    });
+    ctx.run_proptest("odd-numbering-after-history", &STD, n, odd, check);
 }
